@@ -629,7 +629,16 @@ def _duration_print_parse(ctx, rep):
 def _fold_call(ctx, mod, fnode, args, hook):
     """constant-propagate one call of a package function (e1.PureEval) with external / class
     method calls answered by *hook*"""
-    ev = e1.PureEval(ctx.model, mod, dict(ctx.model.env(mod.name)), budget=50000)
+    env = dict(ctx.model.env(mod.name))
+    origin = getattr(fnode, "_origin_rel", None)
+    if origin and origin != mod.rel:
+        # a definition grafted into the inlined view from the module it lives in: its free names
+        # are those of that module
+        for mn, m in ctx.model.mods.items():
+            if m.rel == origin:
+                env = dict(ctx.model.env(mn))
+                env.update({k: v for k, v in ctx.model.env(mod.name).items() if k not in env})
+    ev = e1.PureEval(ctx.model, mod, env, budget=50000)
     ev.ext_hook = hook
     ev.globals_decl = set()
     ev.allow_methods = True
